@@ -103,7 +103,7 @@ Theorem LevelLimit_ok c fuel L cm s :
 Proof.
   intros N V evs. unfold gen_LevelLimit, returned. dunf.
   rewrite (forl_pure (fun acc l m => ll_step (maximize c) L (demes m) acc l)) by (intros; apply ll_body1).
-  rewrite seq_length, (ll_passes (maximize c) L (demes (ms s)) cm N). cbn beta iota. f_equal. f_equal. f_equal.
+  rewrite ?seq_length, (ll_passes (maximize c) L (demes (ms s)) cm N). cbn beta iota. f_equal. f_equal. f_equal.
   unfold ll_upto, level_limit, ll_keep. apply map_ext_in. intros pk Hpk.
   assert (X : lvl_at (demes (ms s)) (fst pk) <? height c - 1 = true) by (apply Nat.ltb_lt; specialize (V pk Hpk); lia).
   now rewrite X.
